@@ -4,6 +4,7 @@ import (
 	"bytes"
 	"crypto/sha256"
 	"encoding/binary"
+	"encoding/hex"
 	"fmt"
 	"math"
 	"time"
@@ -126,6 +127,24 @@ func (c11Sys) Letters(s *c11State) []engine.Letter {
 	return ls
 }
 
+// c11OneEvent: an accepted operation announces itself in exactly one event of its type whose
+// attributes are exactly the requested values (off-chain challengers and executors act on them).
+func c11OneEvent(evs sdk.Events, typ string, want map[string]string) *engine.Violation {
+	es := world.EventsOfType(evs, typ)
+	if len(es) != 1 {
+		return viol("accepted-operation-is-announced-faithfully", "%d %s events", len(es), typ)
+	}
+	if len(es[0].Attributes) != len(want) {
+		return viol("accepted-operation-is-announced-faithfully", "%s event carries %d attributes, expected %d", typ, len(es[0].Attributes), len(want))
+	}
+	for k, w := range want {
+		if got, ok := world.Attr(es[0], k); !ok || got != w {
+			return viol("accepted-operation-is-announced-faithfully", "%s event: %s=%q, requested %q", typ, k, got, w)
+		}
+	}
+	return nil
+}
+
 func (m c11Out) final(now time.Time) bool { return !now.Before(m.T.Add(c11Period)) }
 
 func (c11Sys) Step(s *c11State, l engine.Letter) (*c11State, string, *engine.Violation) {
@@ -150,6 +169,9 @@ func (c11Sys) Step(s *c11State, l engine.Letter) (*c11State, string, *engine.Vio
 			if !allowed {
 				return c, "accepted", viol("propose-accepted-only-at-next-index-with-higher-block",
 					"proposal accepted although signer=%s idx=%d (next=%d) l2block=%d (log=%v)", d.by, d.idx, lg.next(), d.blk, lg.Outs)
+			}
+			if v := c11OneEvent(res.Events, "propose_output", map[string]string{"proposer": world.Addr(d.by).String(), "bridge_id": fmt.Sprint(d.b), "output_index": fmt.Sprint(d.idx), "l2_block_number": fmt.Sprint(d.blk), "output_root": hex.EncodeToString(root)}); v != nil {
+				return c, "accepted", v
 			}
 			outs := append(append([]c11Out{}, lg.Outs...), c11Out{L2: d.blk, H: ctx.BlockHeight(), T: ctx.BlockTime(), Root: root})
 			c.m[d.b-1] = c11Log{outs}
@@ -183,6 +205,9 @@ func (c11Sys) Step(s *c11State, l engine.Letter) (*c11State, string, *engine.Vio
 			if !allowed {
 				return c, "accepted", viol("delete-accepted-only-for-nonfinal-suffix",
 					"delete accepted although by=%s idx=%d next=%d anyFinal=%v", d.by, d.idx, lg.next(), anyFinal)
+			}
+			if v := c11OneEvent(res.Events, "delete_output", map[string]string{"challenger": world.Addr(d.by).String(), "bridge_id": fmt.Sprint(d.b), "output_index": fmt.Sprint(d.idx)}); v != nil {
+				return c, "accepted", v
 			}
 			n := lg.next() - d.idx
 			c.m[d.b-1] = c11Log{append([]c11Out{}, lg.Outs[:d.idx-1]...)}
@@ -341,7 +366,7 @@ func init() {
 			}
 			res.Absorb("c11", rep)
 			res.Coverage["alphabet"] = "Propose(b∈{1,2}; idx∈{next-1,next,next+1}; l2∈{last-1,last,last+1,last+3, 2^64-1 and what wraps around after it}; by∈{proposer,stranger}), Delete(b; idx∈0..next; by∈{challenger,stranger}), Advance∈{0,4s,period=10s}"
-			res.Coverage["oracle"] = "per-bridge reference log compared with OutputProposals (full, and paged with page size 1 and 2 forward and reverse), OutputProposal and LastFinalizedOutput queries, next index and raw store in every state; acceptance implies the model's guard; rejection implies unchanged digest"
+			res.Coverage["oracle"] = "per-bridge reference log compared with OutputProposals (full, and paged with page size 1 and 2 forward and reverse), OutputProposal and LastFinalizedOutput queries, next index and raw store in every state; acceptance implies the model's guard and exactly one propose_output / delete_output event whose attributes equal the request; rejection implies unchanged digest"
 			res.Assumptions = []string{"one message per transaction with runTx semantics (discarded on error)", "two bridges, period 10s, histories up to the completed depth"}
 			for _, k := range []string{"Propose/accepted", "Propose/rejected", "Delete/accepted-suffix=1", "Delete/accepted-suffix>=2", "Delete/rejected-final"} {
 				res.Require(res.OutcomeCount("c11", k) > 0, "outcome %s never occurred", k)
